@@ -45,12 +45,20 @@ def instances(tier, seed):
                         continue
                     out.append(dict(name="quat/%s/%s/%s%s" % (mob, ig, opt, "/interp" if rep else ""), args=["quat", mob, ig, opt, str(ns)] + ([rep] if rep else []),
                                     base_points=(2 if not th else 4) if opt == "force" else 1, paths=1 if opt == "force" else (3 if not th else 12), flips_per_path=3,
-                                    max_terms=(3000 if opt == "force" else 40000), abstract_big=True, pc_max_terms=(40 if opt == "force" else 6000), z3_timeout_ms=20000))
+                                    seedcase=(None if ig == "ExplicitEuler" else dict(h=0.5, u0=1.5, u1=-2.0, u2=1.0)),
+                                    max_terms=(3000 if opt == "force" else 40000), abstract_big=True, pc_max_terms=(40 if opt == "force" else 6000), z3_timeout_ms=60000))
         for mo in ("steady", "sinP", "sinV"):
             for rep in ("step", "interp"):
                 out.append(dict(name="presc/%s/%s/%s" % (mo, ig, rep), args=["presc", mo, ig, rep], base_points=1 if not th else 3, paths=1, max_terms=4000,
-                                abstract_big=True, pc_max_terms=30, z3_timeout_ms=20000))
+                                abstract_big=True, pc_max_terms=30, z3_timeout_ms=60000))
     return out
+
+
+def adjust_seeds(inst, seeds, angle_pins, rng, g):
+    # multi-stage methods: a large step and spin so that an unprojected (interpolated) quaternion is visibly off the unit sphere
+    for k, v in (inst.get("seedcase") or {}).items():
+        if k in seeds:
+            seeds[k] = v * (1 + 0.25 * g)
 
 
 def free_sets(inst, tr, tier, rng):
